@@ -77,10 +77,10 @@ def run(ctx):
     ctx.assume("slots are sampled (all boundaries +-3..60, powers of two, seeded random), not enumerated up to 2^40")
 
     # 1. exhaustive model check
-    max_slot = 200 if ctx.thorough else 40
+    max_slot = 200 if ctx.thorough else 32
     cfg = ctx.path("MC.cfg")
     src = open(os.path.join(vlib.SPEC, SPEC_DIR, "MCSlotTime.cfg")).read()
-    open(cfg, "w").write(src.replace("MaxSlot = 60", "MaxSlot = %d" % max_slot))
+    open(cfg, "w").write(re.sub(r"MaxSlot = \d+", "MaxSlot = %d" % max_slot, src))
     ctx.tlc_mc(SPEC_DIR, "MCSlotTime", cfg, workers=4, timeout=1700,
                required_actions=["AbsoluteSlotToRelative", "RelativeSlotToAbsolute", "SlotToWallclock", "Tick"])
 
@@ -111,7 +111,7 @@ def run(ctx):
 
     # 3. M3: the well-known networks -> trace spec (verdict)
     tr = ctx.path("trace.ndjson")
-    ctx.run_bin(binary, ["slot-trace", "--seed", ctx.seed, "--random", 4000 if ctx.thorough else 40, "--out", tr])
+    ctx.run_bin(binary, ["slot-trace", "--seed", ctx.seed, "--random", 4000 if ctx.thorough else 30, "--window", 60 if ctx.thorough else 30, "--out", tr])
     events = vlib.read_ndjson(tr)
     nets = [e["name"] for e in events if e["ev"] == "net"]
     if sorted(nets) != ["mainnet", "preprod", "preview", "testnet"]:
@@ -145,8 +145,8 @@ def run(ctx):
         idx = next(i for i, e in enumerate(head) if e["ev"] == "rel" and i > 150)
         jdx = next(i for i, e in enumerate(head) if e["ev"] == "rel" and i > idx + 20)
         assert head[idx + 1]["ev"] == "abs" and head[idx + 2]["ev"] == "wall" and head[jdx + 1]["ev"] == "abs"
-        ok0, _, _, cl0, _, _ = validate(ctx, head, "selftest_clean.ndjson")
-        ctx.selftest("preview slice is accepted without any class", ok0 and not cl0, str(cl0))
+        prev = [k for k in classes if k.split("/")[1] == "preview"]
+        ctx.selftest("the preview calls of the main run are consumed without any class", ok and not prev, str(prev))
         c2 = json.loads(json.dumps(head))
         c2[idx]["sub"] = to_big(86400)          # = epoch size of preview: just out of range
         c2[idx + 1]["sub"] = to_big(86400)      # the inverse is still called with the result of "rel"
